@@ -20,6 +20,8 @@ type lsOpts struct {
 	// DbRes serves the application through resource.DbResource over db/mem (the library's own
 	// translation lookup) instead of the harness's recording resource.
 	DbRes bool `json:"db_resource,omitempty"`
+	// PoRes serves templates and menu labels through resource.PoResource (gettext catalogues on disk).
+	PoRes bool `json:"po_resource,omitempty"`
 	Cfg   engine.Config
 }
 
@@ -70,6 +72,12 @@ func lockstepEnv(a *app.App, o lsOpts, inputs []string, pick func(label string, 
 	defer cleanup()
 	if o.DbRes {
 		s.Res = app.NewDbRes(a, s.Env)
+	}
+	if o.PoRes {
+		scratchSeq++
+		dir := filepath.Join(mc.Scratch(), fmt.Sprintf("po%d", scratchSeq))
+		defer os.RemoveAll(dir)
+		s.Res = app.NewPoRes(a, s.Env, dir)
 	}
 	rv := newRef(a, o.Mode, o.Cfg)
 	s.Env.Answer, rv.Env.Answer = pick, pick
